@@ -5,6 +5,7 @@ sys.path.insert(0, os.path.join(vlib.VERIF, "harness", "py"))
 import routing_check as rc
 import routing_gen as rg
 import routing_expire as rx
+import routing_batch as rb
 
 MLS = ("routing",)
 HARNESSES = (("routing_h", []),)
@@ -43,12 +44,22 @@ def gen_cases(tier, rnd):
 
 def run(ctx):
     rep, tier = ctx["rep"], ctx["tier"]
+    if ctx.get("replay"):
+        import json
+        r = json.load(open(ctx["replay"]))["replay"]
+        if "Z" in r.get("events", []):           # a frozen-batch history (harness/py/routing_batch.py)
+            rep.coverage.update({"evaluations": 1, "distinct_nontrivial": 1, "frozen_batches": rb.run_batch_check(ctx, "C09", 1, only=(r["cfg"], r["events"]))})
+            return
+        if "line" in r:                          # an expiry-machinery case (harness/py/routing_expire.py)
+            rep.coverage.update({"evaluations": 1, "distinct_nontrivial": 1, "expiry_machinery": rx.run_expire_check(ctx, "C09", 0, only=r["line"])})
+            return
     rnd = random.Random(ctx["seed"])
     cases = gen_cases(tier, rnd)
     r = rc.run_check(ctx, "C09", cases, rc.C09_CODES, NONTRIVIAL,
                      "correspondence harness/py/routing_impl.py (dbus-daemon, restrictive policy) vs Routing.step (extracted)")
     cases = r["cases"]
     xcov = rx.run_expire_check(ctx, "C09", 4000 if tier == "quick" else 200000)
+    bcov = rb.run_batch_check(ctx, "C09", 60 if tier == "quick" else 1500)
     samples = []
     for i in range(0, len(cases), max(1, len(cases) // 10)):
         if r["itoks"][i] is not None:
@@ -65,7 +76,7 @@ def run(ctx):
                 "or duplicate-serial refusal; distinct = distinct (configuration, event list)" % (rg.TIMEOUT, rg.TICK_PART, rg.TICK_FULL, len([c for c in rg.scenarios() if c[1][0] == 1])),
         "samples": samples[:10], "input_distribution": r["dist"], "traces_validated_against_impl": len(cases) - r["tainted"],
         "steps_compared": r["steps"], "recipients_stalled_until_queue_full": r["stalls"], "disagreements_checked": r["disagreements"], "timing_unusable": r["tainted"],
-        "illformed_histories": r["illformed"], "exhaustive": False, "expiry_machinery": xcov,
+        "illformed_histories": r["illformed"], "exhaustive": False, "expiry_machinery": xcov, "frozen_batches": bcov,
         "explanation": "theorems: for every history the model's pending-reply table equals the ledger of open calls read off the observable trace "
                        "(on histories without fds / reply-serial-carrying calls), hence only-addressee, at-most-once, NoReply-exactly-once, no slot for "
                        "NO_REPLY, limit; correspondence: real dbus-daemon = model step by step on every generated history; the trace oracle "
